@@ -6,7 +6,7 @@ import numpy as np
 import quantem.core.visualization.custom_normalizations as cn
 
 from ..common import DISCHARGED, ERROR
-from ..sym.claims import Rel, decide, register
+from ..sym.claims import Rel, decide, decide_many, register
 from ..sym.core import S
 
 TECHNIQUE = ("term-valued symbolic execution of the real BaseInterval/stretch/CustomNormalization NumPy code on z3 real "
@@ -207,6 +207,6 @@ def run(check, tier):
             check.error(f"preset {name} resolves to an unmodelled configuration {cfg}")
     check.obligation("presets_resolve_to_modelled_configurations", DISCHARGED if presets_ok else ERROR, trivial=True,
                      detail=f"{len(cn.NORMALIZATION_PRESETS)} presets")
-    for name, claim in cases():
-        decide(check, name, claim, logic=None, timeout_s=60 if tier == "quick" else 300, validate=2, key=name.split("[")[0])
+    decide_many(check, [(n, c, dict(key=n.split("[")[0])) for n, c in cases()], logic=None,
+                timeout_s=60 if tier == "quick" else 300, validate=2 if tier == "quick" else 5)
     special_values(check)
